@@ -44,7 +44,13 @@ type Parser struct {
 // maxNestingDepth bounds how deeply expressions and tags may be nested in a template's
 // source. The parser and the evaluation of what it builds are recursive: without a bound
 // a source like "{{ (((((…" exhausts the stack, which ends the whole process.
-const maxNestingDepth = 10000
+//
+// The bound is also what one activation of a macro (and one level of include/extends) can
+// put on the stack at most: macros recurse up to maxMacroDepth activations, each with
+// the nesting of its body in between, and a stack overflow cannot be recovered from. At
+// a few hundred bytes per level, 1000 levels x 1000 activations stay well below Go's
+// 1 GB stack limit; 10000 levels did not (a 20 KB macro body was enough).
+const maxNestingDepth = 1000
 
 // deeper accounts for n more levels of nesting and refuses to go beyond the bound.
 func (p *Parser) deeper(n int) *Error {
